@@ -11,11 +11,20 @@ decided by the kernel over the whole generated network table.
 namespace Pycoin.Addr
 open Pycoin.Gen.Networks
 
-/-- what produces WIF text and what parses it use the same prefix on every network (Groestl networks cannot produce) -/
+/-- what produces WIF / extended-key text and what parses it use the same prefix on every network — the Groestlcoin
+family included — … -/
 theorem C18_table_consistent :
-    ∀ n ∈ all, n.outWif = (if n.b58DoubleSha then n.parseWif else none) ∧
-      n.outBip32Prv = (if n.b58DoubleSha then n.parseBip32Prv else none) ∧
-      n.outBip32Pub = (if n.b58DoubleSha then n.parseBip32Pub else none) := by
+    ∀ n ∈ all, n.outWif = n.parseWif ∧ n.outBip32Prv = n.parseBip32Prv ∧ n.outBip32Pub = n.parseBip32Pub ∧
+      n.outBip49Prv = n.parseBip49Prv ∧ n.outBip49Pub = n.parseBip49Pub ∧
+      n.outBip84Prv = n.parseBip84Prv ∧ n.outBip84Pub = n.parseBip84Pub := by
+  decide +kernel
+
+/-- … and the same checksum hash: every closure that writes Base58Check text (`address.b2a`, `wif_for_blob`,
+`bip32_as_string`, `bip49_as_string`, `bip84_as_string`) uses the hash `parse_b58_hashed` of the same network accepts
+(each found by probing the live objects; Groestl on GRS / TGRS / GRSRT, double SHA-256 elsewhere) -/
+theorem C18_table_hash :
+    ∀ n ∈ all, n.hashAddr = n.hashParse ∧ n.hashWif = n.hashParse ∧ n.hashBip32 = n.hashParse ∧
+      n.hashBip49 = n.hashParse ∧ n.hashBip84 = n.hashParse := by
   decide +kernel
 
 /-! ## kinds are kept apart -/
@@ -626,6 +635,7 @@ theorem C18_wif_canonical (env : Env) (laws : CodecLaws env) (ke : KeyEnv) (net 
     ∃ k se, o = .key k ∧ k.se = some se ∧ 1 ≤ se ∧ se < ke.order ∧ wifText env net se k.compressed = .ok s ∧
       parseWif env ke net s = .ok (some (.key k)) := by
   have htab := (C18_table_consistent net hn).1
+  have hhash := (C18_table_hash net hn).2.1
   unfold parseWif at h
   cases hd : parseB58Hashed env net s with
   | none => simp [hd] at h
@@ -634,12 +644,8 @@ theorem C18_wif_canonical (env : Env) (laws : CodecLaws env) (ke : KeyEnv) (net 
     | none => simp [hd, hp] at h
     | some p =>
       simp only [hd, hp] at h
-      have hb : net.b58DoubleSha = true ∧ env.b58cDec s = some data := by
-        unfold parseB58Hashed at hd
-        split at hd
-        · rename_i hb; exact ⟨hb, hd⟩
-        · cases hd
-      have hout : net.outWif = some p := by rw [htab, hb.1, if_pos rfl, hp]
+      have hb : env.b58cDec net.hashParse s = some data := hd
+      have hout : net.outWif = some p := by rw [htab, hp]
       split at h
       · cases h
       · rename_i hpre
@@ -654,8 +660,8 @@ theorem C18_wif_canonical (env : Env) (laws : CodecLaws env) (ke : KeyEnv) (net 
               have := beBytes_beNat ((data.drop p.length).take 32); rwa [hl] at this
             have hbody : (data.drop p.length).take 32 ++ [1] = data.drop p.length := by
               conv => rhs; rw [← List.take_append_drop 32 (data.drop p.length), h33.2]
-            simp only [wifText, b58Text, hb.1, hout, h4, if_true, hbe, Bool.not_true, Bool.false_eq_true, if_false]
-            rw [hbody, ← hsplit, laws.b58_canon _ _ hb.2]
+            simp only [wifText, b58Text, hhash, hout, h4, if_true, hbe]
+            rw [hbody, ← hsplit, laws.b58_canon _ _ _ hb]
           · unfold parseWif; simp only [hd, hp, hpre, if_false, h33, and_self, if_true]; exact h
         · split at h
           · rename_i h32
@@ -663,8 +669,8 @@ theorem C18_wif_canonical (env : Env) (laws : CodecLaws env) (ke : KeyEnv) (net 
             refine ⟨k, _, rfl, h3, h1, h2, ?_, ?_⟩
             · have hbe : beBytes (beNat (data.drop p.length)) 32 = data.drop p.length := by
                 have := beBytes_beNat (data.drop p.length); rwa [h32] at this
-              simp only [wifText, b58Text, hb.1, hout, h4, hbe, Bool.not_true, Bool.false_eq_true, if_false, List.append_nil]
-              rw [← hsplit, laws.b58_canon _ _ hb.2]
+              simp only [wifText, b58Text, hhash, hout, h4, hbe, Bool.false_eq_true, if_false, List.append_nil]
+              rw [← hsplit, laws.b58_canon _ _ _ hb]
             · rename_i h33
               unfold parseWif; simp only [hd, hp, hpre, if_false, h33, h32, if_true]; exact h
           · cases h
@@ -677,7 +683,7 @@ under a key that two networks could share) -/
 theorem C18_parse_history_network_independent (env : Env) (ke : KeyEnv) (text : String) (steps : List (Network × String)) :
     historyRun env text (fun e (st : Network × String) => parseEntry e ke st.1 st.2 text) PsCache.empty steps =
       steps.map (fun st => parseEntry env ke st.1 st.2 text) :=
-  historyRun_spec env text _ steps PsCache.empty ⟨Or.inl rfl, Or.inl rfl⟩
+  historyRun_spec env text _ steps PsCache.empty ⟨fun _ => Or.inl rfl, Or.inl rfl⟩
 
 /-! ## non-vacuity (evaluated in the kernel on a toy codec and curve) -/
 
@@ -691,7 +697,11 @@ def toyKe : KeyEnv where
   electrumStretch _ := []
 
 /-- non-vacuity of `C18_wif_canonical`: a compressed WIF carrying the exponent 5 is accepted on BTC -/
-example : ∃ o, parseWif toyEnv toyKe net_btc (toyEnv.b58cEnc ([128] ++ beBytes 5 32 ++ [1])) = .ok (some o) := ⟨_, rfl⟩
-example : parseWif toyEnv toyKe net_btc (toyEnv.b58cEnc ([128] ++ beBytes 0 32 ++ [1])) = .ok none := rfl
-example : parseWif toyEnv toyKe net_btc (toyEnv.b58cEnc ([128] ++ beBytes 5 32 ++ [7])) = .ok none := rfl
+example : ∃ o, parseWif toyEnv toyKe net_btc (toyEnv.b58cEnc .sha256d ([128] ++ beBytes 5 32 ++ [1])) = .ok (some o) := ⟨_, rfl⟩
+example : parseWif toyEnv toyKe net_btc (toyEnv.b58cEnc .sha256d ([128] ++ beBytes 0 32 ++ [1])) = .ok none := rfl
+example : parseWif toyEnv toyKe net_btc (toyEnv.b58cEnc .sha256d ([128] ++ beBytes 5 32 ++ [7])) = .ok none := rfl
+/-- … and on the Groestlcoin testnet (prefix `ef`, the other checksum kind); the mainnet prefix `80` is refused there -/
+example : ∃ o, parseWif toyEnv toyKe net_tgrs (toyEnv.b58cEnc .groestl ([239] ++ beBytes 5 32 ++ [1])) = .ok (some o) := ⟨_, rfl⟩
+example : parseWif toyEnv toyKe net_tgrs (toyEnv.b58cEnc .groestl ([128] ++ beBytes 5 32 ++ [1])) = .ok none := rfl
+example : parseWif toyEnv toyKe net_tgrs (toyEnv.b58cEnc .sha256d ([239] ++ beBytes 5 32 ++ [1])) = .ok none := rfl
 end Pycoin.Addr
